@@ -179,6 +179,11 @@ def run(ctx, widen=False):
     n = ctx.n(200, 6000) * (3 if widen else 1)
     base = ctx.seed * 1000003 + 8500000
     pipeline.run_stream(ctx, __name__, range(base, base + n))
+    # second family: closed forms whose bound placeholder is spelled like a name of the wrapper's own scope (or of an outer one), with
+    # the wrapper's parameters bound by the parent to locals and expressions: the formula is taken at the COUNT, whatever those names mean
+    pipeline.run_stream(ctx, __name__, range(base + 70000, base + 70000 + n // 2),
+                        extra={"rep_kinds": ["closed_form", "closed_form", "closed_form", "custom", "arithmetic"], "p_placeholder_scope_clash": 0.3,
+                               "p_placeholder_clash": 0.9, "symbolic_rep": 0.6})
 
 
 def replay(payload):
